@@ -60,6 +60,8 @@ func main() {
 		code = scenarioResolve()
 	case "multilisten":
 		code = scenarioMultiListen()
+	case "multistamp":
+		code = scenarioMultiStamp()
 	case "pintime":
 		code = scenarioPinTime()
 	default:
